@@ -296,6 +296,10 @@ func c04Str(r *core.Rand) string {
 		return "${" + v + ":0:2}"
 	case 12:
 		return "{{matrix}} $" + v
+	case 13:
+		// references nested inside a default or an error message: they are expanded too
+		o := core.Pick(r, c04Vars)
+		return core.Pick(r, []string{"${" + v + "-$" + o + "}", "${" + v + ":-${" + o + "}/x}", "${" + v + "?need $" + o + " first}", "${" + v + "-pre ${" + o + ":-z} post}"})
 	}
 	return gen.DefaultStr(r)
 }
@@ -324,6 +328,60 @@ func c04LongPipeline(r *core.Rand) any {
 		steps[i] = st
 	}
 	return ordered.MapFromItems(ordered.TupleSA{Key: "steps", Value: steps})
+}
+
+// c04OrderedCollision: pairs of an order-preserving mapping whose keys collide under QKEY=queue, SKEY=size.
+func c04OrderedCollision(r *core.Rand) [][2]string {
+	v := func(i int) string { return fmt.Sprintf("value-%d-${SKEY}", i) }
+	shapes := [][][2]string{
+		{{"queue", v(0)}, {"${QKEY}", v(1)}},                                         // later onto earlier, two entries
+		{{"${QKEY}", v(0)}, {"queue", v(1)}},                                         // earlier onto later
+		{{"queue", v(0)}, {"size", v(1)}, {"${QKEY}", v(2)}, {"${SKEY}", v(3)}},      // two renames onto the first two
+		{{"$QKEY", v(0)}, {"${QKEY}", v(1)}, {"queue", v(2)}, {"size", v(3)}},        // two spellings of one name, then the name
+		{{"a", v(0)}, {"${QKEY}", v(1)}, {"b", v(2)}, {"queue", v(3)}, {"c", v(4)}},  // one collision among bystanders
+		{{"queue", v(0)}, {"x-${QKEY}", v(1)}, {"${QKEY}", v(2)}, {"x-queue", v(3)}}, // interleaved
+	}
+	return shapes[r.Intn(len(shapes))]
+}
+
+func pairsToOMap(ps [][2]string) *ordered.MapSA {
+	m := ordered.NewMap[string, any](len(ps))
+	for _, p := range ps {
+		m.Set(p[0], p[1])
+	}
+	return m
+}
+
+// c04RenameModel: the walk of interpolateOrderedMap over a list of pairs (Range + Replace, as specified for C05 / C10).
+func c04RenameModel(ps [][2]string, expand func(string) (string, bool)) [][2]string {
+	type ent struct {
+		k, v string
+		dead bool
+	}
+	es := make([]ent, len(ps))
+	for i, p := range ps {
+		es[i] = ent{k: p[0], v: p[1]}
+	}
+	for i := range es {
+		if es[i].dead {
+			continue
+		}
+		nk, _ := expand(es[i].k)
+		nv, _ := expand(es[i].v)
+		for j := range es {
+			if j != i && !es[j].dead && es[j].k == nk {
+				es[j].dead = true
+			}
+		}
+		es[i].k, es[i].v = nk, nv
+	}
+	var out [][2]string
+	for _, e := range es {
+		if !e.dead {
+			out = append(out, [2]string{e.k, e.v})
+		}
+	}
+	return out
 }
 
 func c04Key(r *core.Rand) string {
@@ -378,6 +436,7 @@ func runC04(c *ctx) error {
 		var src []byte
 		format := "given"
 		var corp *corpusDoc
+		var ocoll [][2]string
 		if c.only != nil {
 			src = c.only
 		} else if corp = c.corpusAt(i, 2); corp != nil {
@@ -392,6 +451,13 @@ func runC04(c *ctx) error {
 			}
 			if m, ok := doc.(interface{ Delete(string) }); ok {
 				m.Delete("env") // the env block is C10's subject; C04 compares the rest of the pipeline
+			}
+			if dm, ok := doc.(*ordered.MapSA); ok && i%8 == 3 {
+				// an order-preserving mapping (top-level unknown field) whose keys collide once expanded: renames onto
+				// earlier and later entries, with and without entries already dropped before the one being renamed
+				ocoll = c04OrderedCollision(rng)
+				dm.Set("zz_ocoll", pairsToOMap(ocoll))
+				c.res.Hist("doc.ordered-map-key-collisions")
 			}
 			src, format = renderDoc(rng, doc)
 		}
@@ -408,6 +474,7 @@ func runC04(c *ctx) error {
 			}
 		}
 		delete(runtime, "UNSET")
+		runtime["QKEY"], runtime["SKEY"] = "queue", "size" // variables that hold key names (the collision construction)
 		if c.only != nil && c.onlyEnv != nil {
 			runtime = map[string]string{}
 			for k, v := range c.onlyEnv {
@@ -445,6 +512,38 @@ func runC04(c *ctx) error {
 			got := "error"
 			if ierr == nil {
 				got = "ok " + canon(after)
+			}
+			if ocoll != nil && ierr == nil && rep == 0 {
+				// the collision construction judged directly against the list-of-pairs reading of the walk: entries are
+				// visited in order, an entry dropped by an earlier rename is not visited, a rename keeps its position and
+				// drops whatever else has that name
+				c.res.OracleChecks++
+				want := c04RenameModel(ocoll, expand)
+				var gotPairs [][2]string
+				if om, ok := p.RemainingFields["zz_ocoll"].(*ordered.MapSA); ok {
+					// (the aliased rendering may have added entries of its own: judge the constructed ones)
+					mine := map[string]bool{}
+					for _, pr := range ocoll {
+						mine[pr[0]] = true
+						if e, ok := expand(pr[0]); ok {
+							mine[e] = true
+						}
+					}
+					om.Range(func(k string, v any) error {
+						if mine[k] {
+							gotPairs = append(gotPairs, [2]string{k, fmt.Sprint(v)})
+						}
+						return nil
+					})
+					all := 0
+					om.Range(func(string, any) error { all++; return nil })
+					if om.Len() != all {
+						c.res.Fail(core.OracleFailure{What: "an ordered mapping's Len disagrees with its Range after interpolation", Input: map[string]any{"document": string(src), "env": runtime}, Got: fmt.Sprint(om.Len()), Want: fmt.Sprint(all)})
+					}
+				}
+				if fmt.Sprint(gotPairs) != fmt.Sprint(want) {
+					c.res.Fail(core.OracleFailure{What: "an order-preserving mapping whose keys collide once expanded is not what renaming entry by entry gives", Input: map[string]any{"document": string(src), "env": runtime}, Got: fmt.Sprint(gotPairs), Want: fmt.Sprint(want)})
+				}
 			}
 			if rep == 0 {
 				first = got
